@@ -49,6 +49,8 @@ def run(ctx):
         if c["rc"] and not (c.get("rc_p_same", True) and c.get("rc_score_same", True)):
             ctx.violation("M3", "reverse-complementing the targets changed a score or p-value", info, cls="rc-invariance")
         st["hashed_cases"] = st.get("hashed_cases", 0) + c.get("hashed", 0)
+        if not c.get("inplace_same", True):
+            ctx.violation("M3", "the same target list passed again after two of its elements were swapped in place gives results of the old content", info, cls="inplace")
         for name, what in (("hash_same", "with column hashing (injective here)"), ("hash_rev_same", "with column hashing and the target list reversed"),
                            ("hash_rc_same", "with column hashing and reverse-complemented targets")):
             if not c.get(name, True):
